@@ -34,9 +34,13 @@ class Untranslatable(Exception):
     pass
 
 
+class IOTerm(str):
+    """A Coq term of type IO (world S) gv (as opposed to result gv): see py2coq_io.py."""
+
+
 EXN = {"UBXMessageError": "EUBXMessage", "UBXParseError": "EUBXParse", "UBXTypeError": "EUBXType",
        "UBXStreamError": "EUBXStream", "ValueError": "EValue", "TypeError": "EType", "KeyError": "EKey",
-       "IndexError": "EIndex", "AttributeError": "EAttribute", "OverflowError": "EOverflow"}
+       "IndexError": "EIndex", "AttributeError": "EAttribute", "OverflowError": "EOverflow", "EOFError": "EEOF"}
 
 
 def coq_str(s):
@@ -73,7 +77,10 @@ def aty_of(t):
 class FnTr:
     """Translate one function."""
 
-    def __init__(self, mod, node, coqname, is_method=False):
+    def __init__(self, mod, node, coqname, is_method=False, io=False, siblings=None):
+        self.io = io
+        self.siblings = siblings or {}
+        self.calls = []
         self.mod = mod
         self.node = node
         self.coqname = coqname
@@ -158,9 +165,9 @@ class FnTr:
     def E(self, e, env):
         if isinstance(e, ast.Constant):
             return [], lit(e.value)
-        if isinstance(e, ast.UnaryOp) and isinstance(e.op, ast.USub) and isinstance(e.operand, ast.Constant) \
+        if isinstance(e, ast.UnaryOp) and isinstance(e.op, (ast.USub, ast.Invert)) and isinstance(e.operand, ast.Constant) \
                 and isinstance(e.operand.value, int) and not isinstance(e.operand.value, bool):
-            return [], lit(-e.operand.value)
+            return [], lit(-e.operand.value if isinstance(e.op, ast.USub) else ~e.operand.value)
         if isinstance(e, ast.Name):
             if e.id in env:
                 return [], "v_" + e.id
@@ -173,14 +180,14 @@ class FnTr:
         if isinstance(e, ast.Attribute):
             if not (self.is_method and isinstance(e.value, ast.Name) and e.value.id == "self"):
                 raise Untranslatable("%s: attribute access .%s" % (self.node.name, e.attr))
-            return [], self.self_attr(e.attr, env)
+            return [], ("(attr %s)" % coq_str(e.attr)) if self.io else self.self_attr(e.attr, env)
         if isinstance(e, ast.IfExp):
             c = self.C(e.test, env)
             b1, a1 = self.E(e.body, env)
             b2, a2 = self.E(e.orelse, env)
             t, cn = self.fresh(), self.fresh("c")
             return [(t, "(do %s <- %s; if %s then (%s) else (%s))" % (
-                cn, c, cn, self.wrap(b1, "Ok %s" % a1), self.wrap(b2, "Ok %s" % a2)))], t
+                cn, c, cn, self.wrap(b1, "Ok %s" % a1, True), self.wrap(b2, "Ok %s" % a2, True)))], t
         if isinstance(e, (ast.Tuple, ast.List)):
             bs, atoms = self.Es(e.elts, env)      # a list literal that is only read is rendered as a tuple
             return bs, "(Tup [%s])" % "; ".join(atoms)
@@ -191,7 +198,7 @@ class FnTr:
         if isinstance(e, ast.Call):
             return self.call(e, env)
         if isinstance(e, ast.BinOp):
-            ops = {ast.Add: "g_add", ast.Sub: "g_sub", ast.BitAnd: "g_band", ast.Mod: "g_mod"}
+            ops = {ast.Add: "g_add", ast.Sub: "g_sub", ast.BitAnd: "g_band", ast.Mod: "g_mod", ast.BitOr: "g_bor", ast.LShift: "g_shl"}
             if type(e.op) not in ops:
                 raise Untranslatable("%s: operator %s" % (self.node.name, type(e.op).__name__))
             b1, a1 = self.E(e.left, env)
@@ -273,6 +280,10 @@ class FnTr:
 
     def call(self, e, env):
         f = e.func
+        if self.io:
+            r = self.io_call(e, env)
+            if r is not None:
+                return r
         if (isinstance(e, ast.Call) and isinstance(e.func, ast.Attribute) and e.func.attr == "from_bytes"
                 and isinstance(e.func.value, ast.Name) and e.func.value.id == "int" and "int" not in env
                 and len(e.args) == 2 and not e.keywords and isinstance(e.args[1], ast.Constant) and e.args[1].value == "little"):
@@ -330,11 +341,68 @@ class FnTr:
             return b, "(Call %s [%s] [%s])" % (coq_str(cn), "; ".join(atoms), "; ".join(kws))
         raise Untranslatable("%s: call of %s" % (self.node.name, e.func.id))
 
+    def io_call(self, e, env):
+        """Calls that only make sense in a method that reads the stream (see py2coq_io.py)."""
+        f = e.func
+        t = self.fresh()
+
+        def is_self(x, attr=None):
+            return isinstance(x, ast.Attribute) and isinstance(x.value, ast.Name) and x.value.id == "self" and (attr is None or x.attr == attr)
+        if (isinstance(f, ast.Attribute) and f.attr == "from_bytes" and isinstance(f.value, ast.Name) and f.value.id == "int"
+                and len(e.args) == 2 and isinstance(e.args[1], ast.Constant) and e.args[1].value == "little"
+                and all(kw.arg == "signed" and isinstance(kw.value, ast.Constant) and kw.value.value is False for kw in e.keywords)):
+            b, a = self.E(e.args[0], env)
+            return b + [(t, "g_int_from_le %s" % a)], t
+        if isinstance(f, ast.Attribute) and is_self(f.value, "_stream") and not e.keywords:
+            if f.attr == "read" and len(e.args) == 1:
+                b, a = self.E(e.args[0], env)
+                return b + [(t, IOTerm("io_read rd %s" % a))], t
+            if f.attr == "readline" and not e.args:
+                return [(t, IOTerm("io_readline rdl"))], t
+            raise Untranslatable("%s: stream method %s" % (self.node.name, f.attr))
+        if isinstance(f, ast.Attribute) and is_self(f.value, "_logger") and not e.keywords:
+            b, atoms = self.Es(e.args, env)
+            return b + [(t, IOTerm("io_eff %s [%s]" % (coq_str("logger." + f.attr), "; ".join(atoms))))], t
+        if is_self(f, "_errorhandler") and not e.keywords:
+            b, atoms = self.Es(e.args, env)
+            return b + [(t, IOTerm("io_eff %s [%s]" % (coq_str("errorhandler"), "; ".join(atoms))))], t
+        if is_self(f) and f.attr in self.siblings and not e.keywords:
+            b, atoms = self.Es(e.args, env)
+            self.calls.append(f.attr)
+            return b + [(t, IOTerm("py_io%s%s %s" % (f.attr, " fuel" if self.siblings[f.attr] else "", " ".join(atoms))))], t
+        name = None
+        if is_self(f, "parse"):
+            name = "self.parse"
+        elif isinstance(f, ast.Attribute) and f.attr == "parse" and isinstance(f.value, ast.Name) and f.value.id not in env:
+            import pynmeagps
+            import pyrtcm
+            obj = getattr(self.mod, f.value.id, None)
+            if obj is pynmeagps.NMEAReader:
+                name = "NMEAReader.parse"
+            elif obj is pyrtcm.RTCMReader:
+                name = "RTCMReader.parse"
+        if name:
+            if any(kw.arg is None for kw in e.keywords):
+                raise Untranslatable("%s: **kwargs in a call" % self.node.name)
+            b, atoms = self.Es(e.args, env)
+            kws = []
+            for kw in e.keywords:
+                b2, a2 = self.E(kw.value, env)
+                b += b2
+                kws.append("(%s, %s)" % (coq_str(kw.arg), a2))
+            return b + [(t, "ext %s [%s] [%s]" % (coq_str(name), "; ".join(atoms), "; ".join(kws)))], t
+        return None
+
     # ---- conditions: a term of type `result bool` ----
-    def wrap(self, binds, body):
+    def wrap(self, binds, body, pure=False):
         out = body
         for t, rhs in reversed(binds):
-            out = "do %s <- %s;\n%s" % (t, rhs, out)
+            if self.io and not pure:
+                out = ("doM %s <- %s;\n%s" if isinstance(rhs, IOTerm) else "doM %s <- liftR (%s);\n%s") % (t, rhs, out)
+            else:
+                if isinstance(rhs, IOTerm):
+                    raise Untranslatable("%s: a stream operation or method call inside a condition" % self.node.name)
+                out = "do %s <- %s;\n%s" % (t, rhs, out)
         return out
 
     def C(self, e, env):
@@ -353,12 +421,27 @@ class FnTr:
             return "(do %s <- %s; Ok (negb %s))" % (a, self.C(e.operand, env), a)
         if isinstance(e, ast.Compare):
             if len(e.ops) != 1:
-                raise Untranslatable("%s: chained comparison" % self.node.name)
+                # a < b < c: every operand evaluated once, left to right, then the pairwise tests with short-circuit
+                # (operands here have no side effects, so evaluating the last one early is not observable unless it raises)
+                if not all(isinstance(o, (ast.Lt, ast.LtE, ast.Gt, ast.GtE, ast.Eq, ast.NotEq)) for o in e.ops):
+                    raise Untranslatable("%s: chained comparison" % self.node.name)
+                binds, atoms = self.Es([e.left] + list(e.comparators), env)
+                parts = []
+                for i, o in enumerate(e.ops):
+                    l, r = atoms[i], atoms[i + 1]
+                    parts.append({ast.Lt: "g_lt %s %s" % (l, r), ast.LtE: "g_le %s %s" % (l, r), ast.Gt: "g_lt %s %s" % (r, l),
+                                  ast.GtE: "g_le %s %s" % (r, l), ast.Eq: "Ok (g_eq %s %s)" % (l, r),
+                                  ast.NotEq: "Ok (negb (g_eq %s %s))" % (l, r)}[type(o)])
+                out = parts[-1]
+                for c in reversed(parts[:-1]):
+                    a = self.fresh("b")
+                    out = "(do %s <- %s; if %s then %s else Ok false)" % (a, c, a, out)
+                return "(" + self.wrap(binds, out, True) + ")"
             op, l, r = e.ops[0], e.left, e.comparators[0]
             neg = isinstance(op, (ast.NotIn, ast.NotEq, ast.IsNot))
 
             def fin(binds, b):
-                return "(" + self.wrap(binds, "Ok (%s)" % (("negb (%s)" % b) if neg else b)) + ")"
+                return "(" + self.wrap(binds, "Ok (%s)" % (("negb (%s)" % b) if neg else b), True) + ")"
             if isinstance(op, (ast.In, ast.NotIn)):
                 if isinstance(r, ast.Name) and r.id == self.kwarg:
                     if not (isinstance(l, ast.Constant) and isinstance(l.value, str)):
@@ -369,7 +452,7 @@ class FnTr:
                     b2, atoms = self.Es(r.elts, env)
                 elif isinstance(r, ast.Name) and r.id not in env and r.id not in self.assigned and self.resolve(r.id)[0] == "classes":
                     t = self.fresh("b")
-                    return "(" + self.wrap(b1, "do %s <- g_in_classes %s; Ok (%s)" % (t, a1, ("negb %s" % t) if neg else t)) + ")"
+                    return "(" + self.wrap(b1, "do %s <- g_in_classes %s; Ok (%s)" % (t, a1, ("negb %s" % t) if neg else t), True) + ")"
                 elif isinstance(r, ast.Name) and r.id not in env and r.id not in self.assigned:
                     k, v = self.resolve(r.id)
                     if k != "const" or not isinstance(v, tuple):
@@ -391,9 +474,9 @@ class FnTr:
                    ast.Gt: "g_lt %s %s" % (a2, a1), ast.GtE: "g_le %s %s" % (a2, a1)}
             if type(op) not in rel:
                 raise Untranslatable("%s: comparison %s" % (self.node.name, type(op).__name__))
-            return "(" + self.wrap(b1 + b2, rel[type(op)]) + ")"
+            return "(" + self.wrap(b1 + b2, rel[type(op)], True) + ")"
         b, a = self.E(e, env)
-        return "(" + self.wrap(b, "Ok (g_truth %s)" % a) + ")"
+        return "(" + self.wrap(b, "Ok (g_truth %s)" % a, True) + ")"
 
     # ---- statements ----
     def block(self, stmts, env, cont):
@@ -407,6 +490,9 @@ class FnTr:
             return k(env)
         if isinstance(s, ast.Pass):
             return k(env)
+        if self.io and isinstance(s, ast.Expr) and isinstance(s.value, ast.Call):
+            b, a = self.E(s.value, env)
+            return self.wrap(b, k(env))
         if (self.is_method and isinstance(s, ast.Assign) and len(s.targets) == 1 and isinstance(s.targets[0], ast.Attribute)
                 and isinstance(s.targets[0].value, ast.Name) and s.targets[0].value.id == "self"):
             x = s.targets[0].attr
@@ -439,7 +525,7 @@ class FnTr:
         if isinstance(s, ast.If):
             c = self.C(s.test, env)
             cn = self.fresh("c")
-            return "do %s <- %s;\nif %s then (\n%s\n) else (\n%s\n)" % (
+            return ("doM %s <- liftR (%s);\nif %s then (\n%s\n) else (\n%s\n)" if self.io else "do %s <- %s;\nif %s then (\n%s\n) else (\n%s\n)") % (
                 cn, c, cn, self.block(s.body, env, k), self.block(s.orelse, env, k))
         if isinstance(s, ast.Return):
             if s.value is None:
@@ -479,6 +565,8 @@ class FnTr:
     def ret(self, atom, env):
         """A plain function returns its value; a method returns (value, final values of the attributes of self it
         assigns anywhere, calls made on super())."""
+        if self.io:
+            return "retIO %s" % atom
         if not self.is_method:
             return "Ok %s" % atom
         self.returns.append(env)
@@ -505,6 +593,8 @@ class FnTr:
 
     def raise_(self, s, env):
         exc = s.exc
+        if self.io and isinstance(exc, ast.Name) and exc.id in env:
+            return "g_reraise v_%s" % exc.id
         if isinstance(exc, ast.Call):
             for a in list(exc.args) + [kw.value for kw in exc.keywords]:
                 self.message_ok(a, env)
@@ -514,7 +604,7 @@ class FnTr:
         k, cn = self.resolve(exc.id)
         if k != "exn":
             raise Untranslatable("%s: raise %s" % (self.node.name, exc.id))
-        return "Raise %s" % cn
+        return ("raiseIO %s" if self.io else "Raise %s") % cn
 
     def always_exits(self, stmts):
         for st in stmts:
@@ -528,6 +618,11 @@ class FnTr:
         return False
 
     def try_(self, s, env, k):
+        if self.io:
+            raise Untranslatable("%s: try statement (handled by the store-based translation)" % self.node.name)
+        return self.try0_(s, env, k)
+
+    def try0_(self, s, env, k):
         """try: <body that always returns or raises>  except <one exception class> [as name]: <handler>"""
         if s.orelse or s.finalbody or len(s.handlers) != 1 or not isinstance(s.handlers[0].type, ast.Name):
             raise Untranslatable("%s: try statement shape" % self.node.name)
@@ -612,6 +707,8 @@ class FnTr:
             raise Untranslatable("%s: exception message uses %s" % (self.node.name, ast.dump(n)[:60]))
 
     def for_(self, s, env, k):
+        if self.io:
+            raise Untranslatable("%s: for loop in a stream method" % self.node.name)
         if s.orelse or not isinstance(s.target, ast.Name):
             raise Untranslatable("%s: for/else or tuple target" % self.node.name)
         if not all(isinstance(x, (ast.Assign, ast.AugAssign)) for x in s.body):
@@ -644,7 +741,7 @@ class FnTr:
         body = [s for s in self.node.body]
         self.returns = []
         term = self.block(body, env, lambda env2: self.ret("gnone", env2))
-        if self.is_method:
+        if self.is_method and not self.io:
             # the attributes written anywhere in the method, in order of first appearance: on a path that does not
             # assign one, its value is the one the object had (an input)
             for i, renv in enumerate(self.returns):
@@ -653,6 +750,10 @@ class FnTr:
         args = " ".join(["(s_%s : gv)" % p for p in sorted(self.self_reads)] + ["(v_%s : gv)" % p for p in self.params])
         ka = " (k : kwargs)" if self.kwarg else ""
         self.signature = (sorted(self.self_reads), list(self.params), self.kwarg is not None)
+        if self.io:
+            if self.self_writes or self.kwarg:
+                raise Untranslatable("%s: a stream method that assigns attributes or takes **kwargs" % self.node.name)
+            return "Definition %s %s : IO (world S) gv :=\n%s." % (self.coqname, " ".join("(v_%s : gv)" % p for p in self.params), term)
         return "Definition %s %s%s : result gv :=\n%s." % (self.coqname, args, ka, term)
 
 
